@@ -64,6 +64,31 @@ CHECKS.update({
         design="DESIGN.md §3 C20"),
 })
 
+CHECKS.update({
+    "C15": dict(
+        technique="TLA+ capacity algebra + allocation ledger (FimCapacity): laws checked by TLC over a vector family; every "
+                  "operation on every pair and ledger histories replayed on the real Capacities/FreeCapacity at three scales, "
+                  "judged by Trace_FimCapacity",
+        text="TLC checks the algebraic laws ((a+b)-b=a, commutativity, associativity, fits <=> no negative field of the "
+             "difference, equality laws, free+allocated=total) on the model and generates all operations on all pairs of a "
+             "representative vector family (thorough: + the cube {0,1,2}^3 on core/ram/disk) and ledger histories; the real "
+             "classes are executed at scales 1, 10^6 and 2^40 and every result, the operands read back after the call, and the "
+             "ledger state are compared with the model by TLC.",
+        note="Integers beyond 2^31 never enter TLC: values are abstract x scale (+,-,<= commute with scaling).",
+        design="DESIGN.md §3 C15"),
+    "C18": dict(
+        technique="TLA+ catalogue oracle (FimCatalog) reading the repository's JSON data; TLC enumerates the whole request grid "
+                  "(catalogue values +/-1; thorough: dense) and every catalogue entry x argument combination; the tabulated "
+                  "answers of the real code are judged row by row by Trace_FimCatalog (admissibility = sufficient and Pareto-minimal)",
+        text="Exhaustive table check: ~24k (thorough ~3e5) sizing requests and ~1.2k component generations; TLC decides for each "
+             "returned size that it satisfies the request and no satisfying size is strictly smaller (or that it is the largest "
+             "when nothing fits), that names agree with capacities, and that every generated component tree equals the "
+             "catalogue-derived expectation (interface names, kinds, speeds, unit counts, ids, which label object landed where).",
+        note="Catalogue files are data (read by TLC), only the algorithms are judged; enum member names (character massage) are "
+             "not compared, only the (type, model) list.",
+        design="DESIGN.md §3 C18"),
+})
+
 PENDING = {}
 
 
